@@ -253,6 +253,10 @@ def random_case(rng):
         # the frames live in two videos embedded in one package file (same filename, different HDF5 dataset) and share
         # frame numbers: pairing must keep them apart (seed C16_r5)
         opts["two_videos"] = True
+    elif rng.random() < 0.25:
+        # the labels refer to a plain media file (an .mp4 opened by sleap-io: MediaVideo backend, no HDF5 dataset), the
+        # usual case for predictions made on a video
+        opts["media_video"] = True
     return new_case(frames, N, opts, tag=mode + ("-ties" if ties else ""))
 
 
